@@ -95,10 +95,9 @@ class UnimodalPdf(DensityEstimator):
     @staticmethod
     def sample_moments(samples: ndarray) -> tuple[float, float, float]:
         mu = mean(samples)
-        x2 = samples**2
-        x3 = x2 * samples
-        sig = sqrt(mean(x2) - mu**2)
-        skew = (mean(x3) - 3 * mu * sig**2 - mu**3) / sig**3
+        dx = samples - mu
+        sig = sqrt(mean(dx**2))
+        skew = mean(dx**3) / sig**3
         return mu, sig, skew
 
     def __call__(self, x: ndarray) -> ndarray:
